@@ -60,7 +60,6 @@ type Frame struct {
 	lastOrd      int
 	letTypes     map[string]types.Type // Go types of the names bound by "at call ... let"
 	letSorts     map[string]Sort
-	escUses      map[*ssa.Alloc][]ssa.Instruction // cached escaping uses of heap allocations
 }
 
 var frameCounter int
